@@ -1,5 +1,6 @@
 """C05 — round trip: deserialize after serialize is the identity on values (bijective fragment), also through json,
 and dually serialize(deserialize(d)) is d completed with defaults and re-deserializes to an equal value."""
+import copy
 import json
 
 from vf import gen_data, gen_types, harness
@@ -9,7 +10,7 @@ from vf.spec import ALIASERS, AnyT, Coll, ObjectT, Program, Unspecified, canon
 PROP = "C05"
 SHARDS = {"quick": 8, "thorough": 16}
 TIME_CAP = {"quick": 70, "thorough": 900}
-REQUIRED = ["value_round_trips", "json_round_trips", "dual_round_trips", "fixpoint_checks", "completion_checks", "programs", "std_programs", "aliaser_programs",
+REQUIRED = ["value_round_trips_default_no_copy", "value_round_trips", "json_round_trips", "dual_round_trips", "fixpoint_checks", "completion_checks", "programs", "std_programs", "aliaser_programs",
             "fields_set_programs", "discriminated_round_trips", "discriminated_families", "discriminated_roundtrips", "discriminated_class_checks"]
 RULE = ("bijective fragment of the C01 program space (no one-way conversion, serialized method, asymmetric skip, init=False / InitVar field, class-ambiguous union; exclude_* off) "
         "+ standard-library converted types (UUID, date/datetime/time, Decimal, bytes, Path, ip addresses, Pattern) + discriminated unions; values = images of model-valid data; "
@@ -70,6 +71,8 @@ def check_program(env, prog, label, ndata, std):
         env.violation({"kind": "compile", "exc": bad.exc or "ValidationError", "site": bad.site}, {"program": prog.source, "outcome": bad.brief()})
         return
     deser, ser = od.value, osr.value
+    od2 = harness.call(deserialization_method, T, **kw)  # the default (no_copy=True) compilation: other method classes
+    deser_default = od2.value if od2.kind == "ok" else None
     if std:
         env.count("std_programs")
     has_fs = any(isinstance(n, ObjectT) and n.fields_set for n in t.walk())
@@ -109,6 +112,17 @@ def check_program(env, prog, label, ndata, std):
         if cb != cv:
             env.violation({"kind": "round-trip-differs"}, {**wit, "back": back.brief(), "expected_image": repr(cv)[:400], "observed_image": repr(cb)[:400]})
             continue
+        if deser_default is not None:
+            # the value was drawn through the copying compilation; it must also come back through the default one
+            back2 = harness.call(deser_default, copy.deepcopy(s.value))
+            env.count("value_round_trips_default_no_copy")
+            try:
+                ok2 = back2.kind == "ok" and canon(back2.value) == cv
+            except Unspecified:
+                ok2 = True
+            if not ok2:
+                env.violation({"kind": "round-trip-differs", "deserialization": "default no_copy"}, {**wit, "back": back2.brief(), "expected_image": repr(cv)[:400]})
+                continue
         # ---- through json
         try:
             text = json.dumps(s.value)
